@@ -18,14 +18,24 @@ Sizing rig (C17): binds the Sizing specification to the real code.
   `__new__` object with faked sandboxes; the agent config is really written
   (mkstemp redirected into the scratch directory) and read back: that file is
   what the agent is told.
+* `agent_rm()` closes the loop to the agent: the config `_prepare_pilot` wrote is
+  split as the agent session does (`cfg.resource_cfg` -> rcfg) and handed to the
+  platform's REAL resource manager (`_init_from_scratch`) inside a faked
+  allocation of exactly the nodes the job requests (pieces of rmnodes_rig).
+* `bulk()` drives the REAL `PMGRLaunchingComponent.work()` ->
+  `_start_pilot_bulk()` -> `_prepare_pilot()` for a bulk of pilots naming mixed
+  platforms / access schemas; staging, tar and the job submission are
+  recorders, the submission of one chosen bucket can be made to raise.
 '''
 
 import os
 import sys
+import copy
 import glob
 import json
 import shutil
 import tempfile
+import threading as mt
 
 from unittest import mock
 
@@ -40,6 +50,11 @@ from radical.pilot.agent.resource_manager.base import ResourceManager
 from radical.pilot.agent.launch_method.base    import LaunchMethod
 from radical.pilot.agent.scheduler.base        import AgentSchedulingComponent
 from radical.pilot.agent.executing.base        import AgentExecutingComponent
+from radical.pilot.agent.resource_manager      import fork as fork_mod
+
+from . import rmnodes_rig as RM
+
+rps = rp.states
 
 BOGUS = '__no_such_name__'
 
@@ -67,6 +82,11 @@ def _capture(fn, *args):
     if 'impl' not in got:
         raise RuntimeError('factory %s has no table `impl`' % fn)
     return res, got['impl']
+
+
+class _Prof(rpshim.NullLog):
+    '''profiler stand-in'''
+    enabled = False
 
 
 class SizingRig(object):
@@ -121,7 +141,7 @@ class SizingRig(object):
         c._uid, c._pmgr = 'pmgr.launching.0000', 'pmgr.0000'
         c._log  = rpshim.NullLog()
         c._log.level, c._log.debug_level = 'OFF', 0
-        c._prof = ru.Config(cfg={'enabled': False})
+        c._prof = _Prof()
         c._session, c._sandboxes = s, dict()
         c._root_dir   = os.path.dirname(rp.__file__)
         c._rp_version = rp.version
@@ -229,23 +249,12 @@ class SizingRig(object):
         sa = rcfg.system_architecture or {}
         return {'name': name, 'cpn': int(rcfg.cores_per_node or 0), 'gpn': int(rcfg.gpus_per_node or 0),
                 'smt': int(sa.get('smt', 1)), 'nbc': len(sa.get('blocked_cores', [])),
-                'nbg': len(sa.get('blocked_gpus', []))}
+                'nbg': len(sa.get('blocked_gpus', [])),
+                'bc': [int(x) for x in sa.get('blocked_cores', [])],
+                'bg': [int(x) for x in sa.get('blocked_gpus', [])]}
 
-    def prepare(self, name, rcfg, size, mutate=None):
-        '''real _prepare_pilot for one pilot size -> Prepared event'''
-        zero = {'nodes': 0, 'cpus': 0, 'gpus': 0, 'pph': 0, 'smt': 0}
-        ev   = {'ev': 'Prepared', 'size': dict(size), 'ok': False, 'jd': zero,
-                'agent': {'nodes': 0, 'backup': 0, 'cores': 0, 'gpus': 0, 'cpn': 0, 'gpn': 0}, 'err': 'none'}
-        descr = {'resource': name, 'runtime': 10, 'project': 'verif', 'queue': 'q',
-                 'access_schema': None}
-        for k in ('nodes', 'cores', 'gpus'):
-            if size[k]:
-                descr[k] = size[k]
-        if size['backup']:
-            descr['backup_nodes'] = size['backup']
-        cfgfile = self.cfgfile
-
-        real_mkstemp, leaked = tempfile.mkstemp, []
+    def _mkstemp(self, leaked):
+        cfgfile, real_mkstemp = self.cfgfile, tempfile.mkstemp
 
         def mkstemp(*a, **k):
             # the agent config of _prepare_pilot goes to the scratch directory; any other
@@ -256,7 +265,34 @@ class SizingRig(object):
             fd, name = real_mkstemp(*a, **k)
             leaked.append(fd)
             return fd, name
+        return mkstemp
 
+    def _figures(self, pilot):
+        '''job description figures and what the agent reads as agent_0.cfg'''
+        jd = pilot['jd_dict']
+        with open(self.cfgfile) as fh:
+            told = json.load(fh)
+        return ({'nodes': int(jd.node_count), 'cpus': int(jd.total_cpu_count),
+                 'gpus': int(jd.total_gpu_count), 'pph': int(jd.processes_per_host or 0),
+                 'smt': int(jd.environment.get('RADICAL_SMT', 0))},
+                {'nodes': int(told['nodes']), 'backup': int(told['backup_nodes']),
+                 'cores': int(told['cores']), 'gpus': int(told['gpus']),
+                 'cpn': int(told['cores_per_node'] or 0), 'gpn': int(told['gpus_per_node'] or 0)},
+                told)
+
+    def prepare(self, name, rcfg, size, mutate=None, with_rm=False):
+        '''real _prepare_pilot for one pilot size -> [Prepared event (, AgentRM event)]'''
+        zero = {'nodes': 0, 'cpus': 0, 'gpus': 0, 'pph': 0, 'smt': 0}
+        ev   = {'ev': 'Prepared', 'size': dict(size), 'ok': False, 'jd': zero,
+                'agent': {'nodes': 0, 'backup': 0, 'cores': 0, 'gpus': 0, 'cpn': 0, 'gpn': 0}, 'err': 'none'}
+        descr = {'resource': name, 'runtime': 10, 'project': 'verif', 'queue': 'q',
+                 'access_schema': None}
+        for k in ('nodes', 'cores', 'gpus'):
+            if size[k]:
+                descr[k] = size[k]
+        if size['backup']:
+            descr['backup_nodes'] = size['backup']
+        leaked, told = [], None
         if size['smt']:
             os.environ['RADICAL_SMT'] = str(size['smt'])
         else:
@@ -268,18 +304,10 @@ class SizingRig(object):
             comp  = self.component
             if mutate:
                 mutate(self, pilot)
-            with mock.patch.object(lbase.tempfile, 'mkstemp', mkstemp):
+            with mock.patch.object(lbase.tempfile, 'mkstemp', self._mkstemp(leaked)):
                 comp._prepare_pilot(name, rcfg, pilot, {}, 'verif.tgz')
-            jd = pilot['jd_dict']
-            with open(cfgfile) as fh:
-                told = json.load(fh)              # what the agent reads as agent_0.cfg
+            ev['jd'], ev['agent'], told = self._figures(pilot)
             ev['ok'] = True
-            ev['jd'] = {'nodes': int(jd.node_count), 'cpus': int(jd.total_cpu_count),
-                        'gpus': int(jd.total_gpu_count), 'pph': int(jd.processes_per_host or 0),
-                        'smt': int(jd.environment.get('RADICAL_SMT', 0))}
-            ev['agent'] = {'nodes': int(told['nodes']), 'backup': int(told['backup_nodes']),
-                           'cores': int(told['cores']), 'gpus': int(told['gpus']),
-                           'cpn': int(told['cores_per_node'] or 0), 'gpn': int(told['gpus_per_node'] or 0)}
         except Exception as e:
             ev['err'] = ('%s: %s' % (type(e).__name__, e))[:200]
         finally:
@@ -289,4 +317,204 @@ class SizingRig(object):
                     os.close(fd)
                 except OSError:
                     pass
+        if with_rm and told is not None:
+            arm = self.agent_rm(told, ev['jd'])
+            if arm is not None:
+                return [ev, arm]
+        return [ev]
+
+    # --------------------------------------------------------------------------
+    def agent_rm(self, told, jd):
+        '''the platform's real resource manager on the agent config `told`, inside
+           a faked allocation of jd['nodes'] nodes -> AgentRM event (None: no such RM here)'''
+        name = told['resource_manager']
+        cls  = ResourceManager.get_manager(name)
+        rcfg = told.get('resource_cfg') or {}
+        if cls is None or name not in ('FORK', 'SLURM', 'LSF', 'PBSPRO', 'TORQUE', 'COBALT'):
+            return None
+        if name == 'FORK' and not rcfg.get('fake_resources') and jd['nodes'] > 1:
+            return None                 # a real localhost is one node: the RM refuses on purpose
+        n     = jd['nodes']
+        nag   = len([a for a in (told.get('agents') or {}).values() if a.get('target') == 'node'])
+        if told['nodes'] - nag < 1:
+            return None                 # sub-agent nodes take all requested nodes: refused on purpose (C18)
+        cpn   = int(told['cores_per_node'])
+        smt   = jd['smt'] or 1
+        names = ['node%03d' % (i + 1) for i in range(n)]
+        ev    = {'ev': 'AgentRM', 'ok': False, 'err': 'none', 'nnodes': 0, 'req': 0, 'cpn': 0, 'gpn': 0,
+                 'ncores': 0, 'ngpus': 0, 'downc': [], 'downg': [], 'uniform': False}
+        old   = os.getcwd()
+        env0  = {k: os.environ.get(k) for k in RM.ENV_VARS}
+        qstat = ('', 'qstat: command not found', 127)
+        try:
+            os.chdir(self.wd)           # Slurm's rm_info.json, ./services
+            for k in RM.ENV_VARS:
+                if k != 'HOME':
+                    os.environ.pop(k, None)
+            os.environ['RADICAL_SMT'] = str(smt)              # the job's environment carries it
+            nf = os.path.join(self.wd, 'nodefile')
+            if name == 'SLURM':
+                os.environ['SLURM_NODELIST'] = 'node[%s]' % RM.ranges(list(range(1, n + 1)), 3)
+            elif name == 'LSF':
+                with open(nf, 'w') as fh:                     # one line per physical core + batch node
+                    fh.write('batch1\n' + ''.join((h + '\n') * (cpn // smt) for h in names))
+                os.environ['LSB_DJOB_HOSTFILE'] = nf
+            elif name in ('PBSPRO', 'TORQUE', 'COBALT'):
+                os.environ['PBS_JOBID'] = '4711.pbs'
+                if name == 'PBSPRO' and n % 2:
+                    qstat = ('Job Id: 4711.pbs\n    exec_vnode = %s\n    Hold_Types = n\n'
+                             % '+'.join('(%s:ncpus=%d)' % (h, cpn) for h in names), '', 0)
+                else:
+                    with open(nf, 'w') as fh:
+                        fh.write(''.join((h + '\n') * (1 if name != 'TORQUE' else cpn) for h in names))
+                    os.environ['PBS_NODEFILE' if name != 'COBALT' else 'COBALT_NODEFILE'] = nf
+            for k, v in RM.RMInfo._defaults.items():           # see rmnodes_rig.make_rm
+                if isinstance(v, list):
+                    RM.RMInfo._defaults[k] = list()
+                elif isinstance(v, dict):
+                    RM.RMInfo._defaults[k] = dict()
+            rm = cls.__new__(cls)
+            rm.name, rm._log, rm._prof = cls.__name__, self.log, self.log
+            # as Session._init_cfg_from_dict: rcfg = cfg.resource_cfg, removed from cfg
+            acfg = dict(told)
+            acfg.pop('resource_cfg', None)
+            rm._cfg  = ru.Config(from_dict=acfg)
+            rm._rcfg = ru.Config(from_dict=copy.deepcopy(rcfg))
+            with mock.patch.object(RM.rmb, 'Process', RM.FakeProcess), \
+                 mock.patch.object(ru, 'sh_callout', lambda *a, **k: qstat), \
+                 mock.patch.object(fork_mod.multiprocessing, 'cpu_count', lambda: 1 << 20):
+                info = rm._init_from_scratch()
+                info.verify()
+            nodes = info.node_list
+            first = nodes[0]
+            ev.update({
+                'ok': True,
+                'nnodes': len(nodes) + len(info.agent_node_list) + len(info.service_node_list),
+                'req': int(info.requested_nodes),
+                'cpn': int(info.cores_per_node), 'gpn': int(info.gpus_per_node),
+                'ncores': len(first['cores']), 'ngpus': len(first['gpus']),
+                'downc': [i for i, v in enumerate(first['cores']) if RM.occ(v) == 'D'],
+                'downg': [i for i, v in enumerate(first['gpus'])  if RM.occ(v) == 'D'],
+                'uniform': all(x['cores'] == first['cores'] and x['gpus'] == first['gpus'] for x in nodes)})
+        except Exception as e:
+            ev['err'] = ('%s: %s' % (type(e).__name__, e))[:200]
+        finally:
+            os.chdir(old)
+            for k, v in env0.items():
+                if v is None:
+                    os.environ.pop(k, None)
+                else:
+                    os.environ[k] = v
+            os.environ.pop('RADICAL_SMT', None)
         return ev
+
+    # --------------------------------------------------------------------------
+    def expected_endpoints(self, name, schema):
+        '''what the shipped configuration lists for the schema a pilot names'''
+        site, res = name.split('.', 1)
+        raw  = self.session._rcfgs[site][res]
+        used = schema or raw['default_schema']
+        sch  = raw['schemas'][used]
+        return str(sch['job_manager_endpoint']), str(sch['filesystem_endpoint'])
+
+    def bulk(self, spec, fail):
+        '''spec: list of (platform, schema) - one pilot each, ONE bulk for the real
+           work(); fail: 1-based index (dict order) of the (resource, schema) bucket
+           whose job submission raises, 0 = none.  Returns the trace dict.'''
+        rig, events = self, []
+        order = []
+        for c in spec:
+            if tuple(c) not in order:
+                order.append(tuple(c))
+        # python dict order of buckets[resource][schema]
+        ress  = []
+        for r, _ in order:
+            if r not in ress:
+                ress.append(r)
+        bks   = [c for r in ress for c in order if c[0] == r]
+        pilots, pinfo = [], []
+        for i, (name, schema) in enumerate(spec):
+            site, res = name.split('.', 1)
+            known = bool(self.session._rcfgs[site][res].get('cores_per_node'))
+            size  = {'nodes': i + 1} if known else {'cores': 8 * (i + 1)}
+            descr = {'resource': name, 'access_schema': schema or None, 'runtime': 10,
+                     'project': 'verif', 'queue': 'q'}
+            descr.update(size)
+            pd  = rp.PilotDescription(descr)
+            pd.verify()
+            pid = 'pilot.%04d' % i
+            pilots.append({'uid': pid, 'type': 'pilot', 'state': rps.PMGR_LAUNCHING_PENDING,
+                           'description': pd.as_dict()})
+            jm, fs = self.expected_endpoints(name, schema)
+            pinfo.append({'pid': pid, 'plat': name, 'schema': schema, 'jm': jm, 'fs': fs,
+                          'bucket': bks.index((name, schema)) + 1,
+                          'size': {'nodes': size.get('nodes', 0), 'cores': size.get('cores', 0), 'gpus': 0,
+                                   'backup': 0, 'smt': 0}})
+        failing = set(p['pid'] for p in pinfo if p['bucket'] == fail)
+        byid    = {p['pid']: p for p in pinfo}
+
+        class Launcher(object):
+            '''stands for the PSI/J / SAGA launcher'''
+            def can_launch(self, rcfg, pilot):
+                return True
+
+            def launch_pilots(self, rcfg, ps):
+                pids = [p['uid'] for p in ps]
+                bad  = bool(failing & set(pids))
+                events.append({'ev': 'Submit', 'pids': pids, 'ok': not bad})
+                if bad:
+                    raise RuntimeError('job submission refused (injected)')
+
+        c = lbase.PMGRLaunchingComponent.__new__(lbase.PMGRLaunchingComponent)
+        c.__dict__.update(self.component.__dict__)
+        c._cfg       = ru.Config(cfg={'base': self.wd})
+        c._pilots, c._lock, c._cancelled, c._sandboxes = dict(), mt.RLock(), list(), dict()
+        c._stage_in  = lambda pilot, sds: None
+        c._launchers = {'RECORD': Launcher()}
+
+        def advance(things, state=None, publish=True, push=False, **kw):
+            events.append({'ev': 'Adv', 'pids': [t['uid'] for t in ru.as_list(things)], 'state': str(state)})
+        c.advance = advance
+
+        real_bulk, real_prep = c._start_pilot_bulk, c._prepare_pilot
+
+        def start_pilot_bulk(resource, schema, ps):
+            events.append({'ev': 'Bulk', 'res': str(resource), 'schema': str(schema or ''),
+                           'pids': [p['uid'] for p in ps]})
+            return real_bulk(resource, schema, ps)
+
+        def prepare_pilot(resource, rcfg, pilot, expand, tar_name):
+            real_prep(resource, rcfg, pilot, expand, tar_name)
+            jd, agent, told = rig._figures(pilot)
+            info  = byid[pilot['uid']]
+            plat  = SizingRig.platform(str(resource), rcfg)
+            events.append({'ev': 'BPrepared', 'pid': pilot['uid'], 'res': str(resource),
+                           'jm': str(rcfg['job_manager_endpoint']), 'fs': str(rcfg['filesystem_endpoint']),
+                           'ajm': str(told['resource_cfg']['job_manager_endpoint']),
+                           'sized': plat['cpn'] > 0, 'plat': plat, 'size': info['size'],
+                           'jd': jd, 'agent': agent})
+
+        c._start_pilot_bulk = start_pilot_bulk
+        c._prepare_pilot    = prepare_pilot
+
+        leaked, keep = [], tempfile.tempdir
+        tempfile.tempdir = self.wd                     # rp_agent_tmp* directories of the bulk
+        try:
+            with mock.patch.object(lbase.tempfile, 'mkstemp', self._mkstemp(leaked)), \
+                 mock.patch.object(ru, 'sh_callout', lambda *a, **k: ('', '', 0)):
+                try:
+                    c.work(pilots)
+                except Exception as e:
+                    events.append({'ev': 'Adv', 'pids': [], 'state': 'RAISED:%s' % type(e).__name__})
+        finally:
+            tempfile.tempdir = keep
+            for fd in leaked:
+                try:
+                    os.close(fd)
+                except OSError:
+                    pass
+            for d in glob.glob(os.path.join(self.wd, 'rp_agent_tmp*')):
+                shutil.rmtree(d, ignore_errors=True)
+        for p in pinfo:
+            del p['size']
+        return {'kind': 'bulk', 'pilots': pinfo, 'fail': fail, 'events': events}
